@@ -403,17 +403,22 @@ func init() {
 		return VL(v1, v2, v3, v4, VBool(*p == before), VBool(copyOK))
 	})
 	register("pay.set", func(a []Val) Val {
-		p := pktOf(a[0])
-		d := append([]byte{}, a[1].B...)
-		d = d[:len(d):len(d)]
-		r := guard(func() Val {
-			n, err := p.SetPayload(d)
-			if err != nil {
-				return VErr(errCode(err))
+		return nilTwin("SetPayload", a[1].B, func(arg []byte) Val {
+			p := pktOf(a[0])
+			var d []byte
+			if arg != nil {
+				d = append([]byte{}, arg...)
+				d = d[:len(d):len(d)]
 			}
-			return VOk(VI(int64(n)))
+			r := guard(func() Val {
+				n, err := p.SetPayload(d)
+				if err != nil {
+					return VErr(errCode(err))
+				}
+				return VOk(VI(int64(n)))
+			})
+			return VL(VB(p[:]), r, vgetters(p), VBool(bytes.Equal(d, a[1].B)))
 		})
-		return VL(VB(p[:]), r, vgetters(p), VBool(bytes.Equal(d, a[1].B)))
 	})
 	register("pay.set_afc", func(a []Val) Val {
 		p := pktOf(a[0])
@@ -421,10 +426,15 @@ func init() {
 		return VL(VB(p[:]), vErrOpt(err))
 	})
 	register("pay.set_fn", func(a []Val) Val {
-		p := pktOf(a[0])
-		d := append([]byte{}, a[1].B...)
-		n := packet.SetPayload(p, d)
-		return VL(VB(p[:]), VI(int64(n)), VBool(bytes.Equal(d, a[1].B)))
+		return nilTwin("packet.SetPayload", a[1].B, func(arg []byte) Val {
+			p := pktOf(a[0])
+			var d []byte
+			if arg != nil {
+				d = append([]byte{}, arg...)
+			}
+			n := packet.SetPayload(p, d)
+			return VL(VB(p[:]), VI(int64(n)), VBool(bytes.Equal(d, a[1].B)))
+		})
 	})
 	optsOf := func(l []Val) []func(*packet.Packet) {
 		var out []func(*packet.Packet)
